@@ -150,3 +150,13 @@ add("C09", "exploration",
 text("C09",
      "seeded concurrent open/write/close/reopen programs from both muxer roles (several opener workers per side, reliable and unreliable tubes of drawn types, far more opens than live tubes so identifiers are reused) under delay, reordering, duplication, loss and late-packet faults (long delays and verbatim late replays of up to several seconds); every tube INSTANCE has a unique tag and every 64-byte stream cell / every unreliable message carries tag, offset, id, reliability and type; oracle: everything an instance reads comes from exactly one instance on the other side with the same id and reliability (violations are attributed: cross-id, cross-reliability, stale-after-reuse/{reliable,unreliable}, own-data-echoed), Create returns identifiers of the muxer's parity that are not in use, accepted tubes have the peer's parity, Accept never returns more tubes of (id, reliability) than the peer opened (ghost), unreliable reads return exactly one written message (length, header and tail pattern)",
      TB, "deterministic simulation with fault injection (seeded reuse histories and late-packet schedules, instance-tag attribution oracle)", "DESIGN.md 4 C09")
+
+add("C04", "exploration",
+    [{"name": "pki-lifecycle", "quick_s": 35, "thorough_s": 900}],
+    real=["certs.Store.VerifyLeaf", "certs.VerifyParent", "certs.Certificate.ReadFrom/Marshal", "certs issuing functions (SelfSignRoot, IssueIntermediate, IssueLeafWithValidity, internal issue via overlay hook)", "keys signatures"],
+    stub=["nothing but the clock: certificates are issued and verified with CurrentTime zero, i.e. the simulated clock"],
+    assumptions=["scope: forests, stores, names and mutations are seeded generation; the clock walk visits every validity boundary (IssuedAt-1s, IssuedAt, ExpiresAt-1s, ExpiresAt, each also with a sub-second offset) of every certificate of the run in order; nothing is enumerated exhaustively",
+                 "'signed by' in the model is ground truth from the issuing history (which key signed which bytes, bytes unmodified), the fingerprint is recomputed with an independent SHA3 and fields are decoded by the harness's own decoder"])
+text("C04",
+     "a PKI living in simulated time: 1-3 roots, their intermediates and leaves (names of all id types incl. equal labels with different types, validities from seconds to beyond the parent's) and type pairings the public API refuses (intermediate under intermediate, leaf-typed signer, ...) are issued at drawn simulated instants; relying parties have drawn store subsets (roots, stored intermediates, wrong-typed and mutated anchors), presented-intermediate choices (right, wrong, none) and requested names (carried, same label other type, other, none); certificates reach the verifier as bytes with single-bit flips, single-field forgeries (type, parent fingerprint, name type, validity bounds, key), truncation and extension; the clock walks forward through every validity boundary; every VerifyLeaf / VerifyParent verdict is compared in BOTH directions with an executable reference model of the property's iff",
+     TB, "deterministic simulation with fault injection (simulated clock walk + in-transit corruption against an executable reference model)", "DESIGN.md 4 C04")
